@@ -42,6 +42,8 @@ class Fn:
     as_method_of: str = None      # wrap in `impl X { }` (default: container if inherent)
     drop_self_impl: bool = False
     obligation: str = None        # human name of what the ensures states
+    as_spec: bool = False         # emit the *same body* as `pub open spec fn <name>_spec` (pure match/if code only):
+                                  # lemmas over <name>_spec are then statements about the real code's table
 
 
 @dataclass
@@ -215,6 +217,15 @@ def annotate_fn(text, item: Fn, log, where):
     return res, n_loops
 
 
+def to_spec_fn(text, item, where):
+    m = mask(text)
+    i = m.index("fn ")
+    if LOOP_RE.search(m[find_top_level(m, i, "{"):]):
+        raise Unsupported(f"{where}: as_spec on a function with loops")
+    head = re.sub(r"\bfn\s+" + re.escape(item.name) + r"\b", "fn " + item.name + "_spec", text[i:], count=1)
+    return "pub open spec " + head
+
+
 def _find_ret_arrow(msig):
     # last `->` at paren depth 0 after the parameter list
     i = msig.index("fn ")
@@ -249,7 +260,7 @@ def generate(unit: Unit, root, rules_mod):
                     t = f.read()
                 nm = it.path
             else:
-                t, nm = it.text, "inline-spec"
+                t, nm = (it.text() if callable(it.text) else it.text), "inline-spec"
             start = cur_line()
             parts.append(f"// ---- spec {nm}\n" + t + "\n")
             meta["linemap"].append({"kind": "spec", "name": nm, "start": start, "end": cur_line()})
@@ -276,7 +287,12 @@ def generate(unit: Unit, root, rules_mod):
         t = rules_mod.apply_rules(orig, rules, ctx, meta["rule_counts"], where)
         # loop ordinals and ghost anchors refer to the text after generic rules and site rewrites
         t = apply_site_rewrites(t, it.rewrites, meta["rewrites"], where)
-        t, n_loops = annotate_fn(t, it, meta["rewrites"], where)
+        if it.as_spec:
+            t = to_spec_fn(t, it, where)
+            n_loops = 0
+            meta["rewrites"].append({"where": where, "kind": "as-spec", "old": "fn " + it.name, "new": "pub open spec fn " + it.name + "_spec (same body)", "count": 1})
+        else:
+            t, n_loops = annotate_fn(t, it, meta["rewrites"], where)
         wrap = it.as_method_of if it.as_method_of else (it.container if (it.container and " for " not in it.container and not it.drop_self_impl) else None)
         start = cur_line()
         hdr = f"// ---- {where} (lines {src.line_of(s)}-{src.line_of(e)})\n"
